@@ -5,8 +5,8 @@
 //!   place, prepends a 16-byte nonce and appends a 16-byte tag (same sizes as AES-SIV-CMAC: nonce
 //!   16, ciphertext = plaintext + 16); `decrypt` succeeds iff the ghost state says that exactly this
 //!   (key, associated data, nonce, ciphertext) is something the peer really produced:
-//!   `AUTHENTIC` is set and the three slices are exactly the expected extents of the datagram
-//!   under test (pointer + length). Everything else is a forgery and yields `DecryptError`.
+//!   `AUTHENTIC` is set and the three slices are the expected extents of the datagram under test
+//!   (lengths + boundary bytes). Everything else is a forgery and yields `DecryptError`.
 //! * source builders.
 use ntp_proto::verif::cookiestash::StashH;
 use ntp_proto::verif::packet::extension_fields::NonBlockingWrite;
@@ -67,14 +67,16 @@ impl zeroize::ZeroizeOnDrop for ModelCipher {}
 // ghost: expectations set by the harness before the call under test
 /// "the server really sent a datagram with exactly this AAD / nonce / ciphertext under s2c"
 pub static mut AUTHENTIC: bool = false;
-// (raw pointers, compared as pointers: casting the datagram's address to an integer makes CBMC give
-// up constant propagation through the datagram array - measured 38 s vs > 8 min)
-pub static mut EXP_AAD_PTR: *const u8 = core::ptr::null();
+// The triple is identified WITHOUT pointers: lengths of the three slices (the AAD always starts at
+// byte 0 of the datagram, so its length is its extent) plus the first nonce byte and the first and
+// last ciphertext byte. Keeping the datagram's address in ghost state (as integer or as raw pointer)
+// makes CBMC give up constant propagation through the datagram array (measured: 38 s vs > 8 min).
 pub static mut EXP_AAD_LEN: usize = 0;
-pub static mut EXP_NONCE_PTR: *const u8 = core::ptr::null();
 pub static mut EXP_NONCE_LEN: usize = 0;
-pub static mut EXP_CT_PTR: *const u8 = core::ptr::null();
 pub static mut EXP_CT_LEN: usize = 0;
+pub static mut EXP_NONCE_FIRST: u8 = 0;
+pub static mut EXP_CT_FIRST: u8 = 0;
+pub static mut EXP_CT_LAST: u8 = 0;
 // ghost: records
 pub static mut DEC_CALLS: u8 = 0;
 pub static mut DEC_OK: u8 = 0;
@@ -116,13 +118,16 @@ impl Cipher for ModelCipher {
                 DEC_WRONG_KEY += 1;
                 return Err(DecryptError);
             }
-            let extents_ok = associated_data.as_ptr() == EXP_AAD_PTR
-                && associated_data.len() == EXP_AAD_LEN
-                && nonce.as_ptr() == EXP_NONCE_PTR
+            if ciphertext.len() < TAG_LEN || nonce.is_empty() {
+                return Err(DecryptError);
+            }
+            let extents_ok = associated_data.len() == EXP_AAD_LEN
                 && nonce.len() == EXP_NONCE_LEN
-                && ciphertext.as_ptr() == EXP_CT_PTR
-                && ciphertext.len() == EXP_CT_LEN;
-            if !(AUTHENTIC && extents_ok) || ciphertext.len() < TAG_LEN {
+                && ciphertext.len() == EXP_CT_LEN
+                && nonce[0] == EXP_NONCE_FIRST
+                && ciphertext[0] == EXP_CT_FIRST
+                && ciphertext[ciphertext.len() - 1] == EXP_CT_LAST;
+            if !(AUTHENTIC && extents_ok) {
                 return Err(DecryptError);
             }
             DEC_OK += 1;
@@ -162,12 +167,12 @@ pub fn s2c() -> Box<dyn Cipher> {
 pub fn expect_extents(msg: &[u8], nts_off: usize, ct_len: usize, authentic: bool) {
     unsafe {
         AUTHENTIC = authentic;
-        EXP_AAD_PTR = msg.as_ptr();
         EXP_AAD_LEN = nts_off;
-        EXP_NONCE_PTR = msg[nts_off + 8..].as_ptr();
         EXP_NONCE_LEN = NONCE_LEN;
-        EXP_CT_PTR = msg[nts_off + 8 + NONCE_LEN..].as_ptr();
         EXP_CT_LEN = ct_len;
+        EXP_NONCE_FIRST = msg[nts_off + 8];
+        EXP_CT_FIRST = msg[nts_off + 8 + NONCE_LEN];
+        EXP_CT_LAST = msg[nts_off + 8 + NONCE_LEN + ct_len - 1];
     }
 }
 
